@@ -63,7 +63,20 @@ example : litRe [93, 93, 62] = .cat (.lit 93) (.cat (.lit 93) (.lit 62)) ∧
 def FirstIdIsMatch : Prop :=
   ∀ b : Bytes, (firstId b).isSome = isMatch Gen.Rx.Netconf.messageID b
 
-/-- `firstId` finds an id exactly when `(?i)(?:message-id="(\d+)")` matches, for every text that
+/-- the exact shape of the regenerated message-id term the theorems below are about
+(`(?i)(?:message-id\s*=\s*["'](\d+)["'])` as Go parses it): the case-folded literal `message-id`
+(`s` also admits U+017F), then `\s*`, `=`, `\s*`, a quote, group 1 = `\d+`, a quote -/
+theorem messageID_term_shape :
+    Gen.Rx.Netconf.messageID =
+      .cat (seqRe [.cls [(77, 77), (109, 109)], .cls [(69, 69), (101, 101)],
+          .cls [(83, 83), (115, 115), (383, 383)], .cls [(83, 83), (115, 115), (383, 383)],
+          .cls [(65, 65), (97, 97)], .cls [(71, 71), (103, 103)], .cls [(69, 69), (101, 101)],
+          .lit 45, .cls [(73, 73), (105, 105)], .cls [(68, 68), (100, 100)]])
+        (.cat (.star (.cls [(9, 10), (12, 13), (32, 32)]) true) (.cat (.lit 61)
+          (.cat (.star (.cls [(9, 10), (12, 13), (32, 32)]) true) (.cat (.cls [(34, 34), (39, 39)])
+            (.cat (.group 1 (.plus (.cls [(48, 57)]) true)) (.cls [(34, 34), (39, 39)])))))) := rfl
+
+/-- `firstId` finds an id exactly when `(?i)(?:message-id\s*=\s*["'](\d+)["'])` matches, for every text that
 does not contain `ſ` (U+017F, bytes C5 BF), which Go's `(?i)` folds onto `s`. -/
 theorem firstId_isSome_eq_partial (b : Bytes) (hb : isInfix [0xC5, 0xBF] b = false) :
     (firstId b).isSome = isMatch Gen.Rx.Netconf.messageID b :=
@@ -72,6 +85,12 @@ theorem firstId_isSome_eq_partial (b : Bytes) (hb : isInfix [0xC5, 0xBF] b = fal
 example : isInfix [0xC5, 0xBF] (ofStr "<rpc-reply message-id=\"101\">") = false ∧
     firstId (ofStr "<rpc-reply message-id=\"101\">") = some 101 := by
   constructor <;> decide +kernel
+
+/-- the spellings of finding C08-F25 are recognised: single quotes, white space around `=` -/
+example : firstId (ofStr "<rpc-reply message-id='101'>") = some 101 ∧
+    firstId (ofStr "<rpc-reply Message-ID \n=\t \"102'>") = some 102 ∧
+    firstId (ofStr "<rpc-reply message-id=101>") = none := by
+  refine ⟨?_, ?_, ?_⟩ <;> decide +kernel
 
 /-- the full claim about the captured id: `getID(messageID.FindSubmatch(b))` -/
 def FirstIdIsGroup : Prop :=
